@@ -124,7 +124,7 @@ def run_case(c: Dict[str, Any]) -> Dict[str, Any]:
         K.CLOCK.virtual = (K.CLOCK.virtual or T0) + gap_value(step['gap'], timeout)
         now = K.CLOCK.virtual
         a = step['action']
-        if not model['pending'] and (now - model['last']) > timeout and a in ('client_send', 'origin_small', 'origin_flood', 'client_drain', 'origin_close'):
+        if not model['pending'] and (now - model['last']) > timeout and a in ('client_send', 'origin_small', 'origin_flood', 'client_drain', 'origin_close', 'client_upload'):
             model['race'] = True
         if a == 'client_send':
             client.out += b'x' * 7 if state != 'half' else b'e'
@@ -141,6 +141,16 @@ def run_case(c: Dict[str, Any]) -> Dict[str, Any]:
             # the origin goes away; what it had sent and the client has not read yet stays queued in the proxy
             origin_box[0].do_close()
             model['upstream_closed'] = True
+        elif a == 'client_upload' and origin_box and state == 'tunnel':
+            # the client sends a burst and falls silent; the origin stops reading, so most of it stays queued in the proxy towards
+            # the UPSTREAM.  Client-side traffic: the proxy's reads of the burst, now.  (Nothing is queued towards the client.)
+            origin_box[0].read_in_drain = False
+            client.out += stream(200000, 5)
+            model['last'] = now
+        elif a == 'origin_read_some' and origin_box and state == 'tunnel':
+            # the origin takes some of what is queued for it: the proxy's upstream socket becomes writable and is flushed - traffic
+            # on the upstream side only, which is not what keeps a client connection alive
+            origin_box[0]._read_some(40000)
         elif a == 'client_drain':
             client.read_in_drain = True
             if model['pending']:
@@ -167,7 +177,7 @@ def run_case(c: Dict[str, Any]) -> Dict[str, Any]:
         ctl['step'] += 1
         apply(c['steps'][ctl['step']])
         # a flood / drain needs many iterations to move its bytes; the clock stands still meanwhile
-        ctl['wait'] = N + (400 if c['steps'][ctl['step']]['action'] in ('origin_flood', 'client_drain', 'origin_close') else 0)
+        ctl['wait'] = N + (400 if c['steps'][ctl['step']]['action'] in ('origin_flood', 'client_drain', 'origin_close', 'client_upload') else 0)
     ctl['wait'] = 40       # establish the connection first
     w.on_iteration = tick
     w.stop_when = lambda world: ctl['done']
@@ -340,6 +350,12 @@ def cases(draw: Any, mode: str) -> Dict[str, Any]:
         steps = [{'gap': draw(st.sampled_from(GAPS)), 'action': 'nothing'} for _ in range(draw(st.integers(1, 4)))]
         return {'timeout': draw(st.sampled_from([1, 2, 10, 60])), 'state': state, 'mode': mode, 'steps': steps}
     acts = ['client_send', 'nothing', 'nothing'] + (['origin_small', 'origin_flood', 'client_drain', 'origin_close'] if state not in ('half',) else [])
+    if state == 'tunnel' and draw(st.integers(0, 2)) == 0:
+        # a silent client whose upload is still draining to a slow origin
+        steps = [{'gap': draw(st.sampled_from(GAPS)), 'action': 'client_upload'}] + \
+                [{'gap': draw(st.sampled_from(GAPS)), 'action': draw(st.sampled_from(['origin_read_some', 'origin_read_some', 'nothing', 'client_send']))}
+                 for _ in range(draw(st.integers(1, 5)))]
+        return {'timeout': draw(st.sampled_from([1, 2, 10, 60])), 'state': state, 'mode': mode, 'steps': steps}
     steps = [{'gap': draw(st.sampled_from(GAPS)), 'action': draw(st.sampled_from(acts))} for _ in range(draw(st.integers(1, 6)))]
     return {'timeout': draw(st.sampled_from([1, 2, 10, 60])), 'state': state, 'mode': mode, 'steps': steps}
 
@@ -381,6 +397,8 @@ def run_shard(spec: Dict[str, Any], seed: int, acc: Any) -> None:
             labs.append('checkpoint-within-1s-of-threshold')
         if info['pending_long']:
             labs.append('pending-output-while-idle>>timeout')
+        if any(s_['action'] == 'origin_read_some' for s_ in c['steps']):
+            labs.append('silent-client-upload-draining-upstream')
         acc.case(c, info['near'] or info['pending_long'], labels=labs)
         acc.count(info['checkpoints'])
         return vs
